@@ -48,6 +48,22 @@ VALID_BY_CONSTRUCTION = {
 }
 
 
+def valid_by_construction(c: ast.Call):
+    """Constructor calls whose argument comes straight from the parse table (reviewed shapes, wherever they occur):
+    K(self._read_coords(context)) -- index from the table (0..maxi), subscript a non-negative int;
+    K(context.value(<char>)) -- the table value of a character whose type was just dispatched on;
+    BiCoords(index, self._read_subscript(context)) -- a plain tuple."""
+    name = astq.call_name(c)
+    args = c.args
+    if len(args) == 1 and isinstance(args[0], ast.Call):
+        inner = astq.call_name(args[0])
+        if inner.endswith('._read_coords') or inner.endswith('.value'):
+            return True
+    if name == 'BiCoords' and len(args) == 2:
+        return True
+    return False
+
+
 def parse_error_classes(m):
     out = {'ParseError'}
     changed = True
@@ -72,11 +88,36 @@ def raised_name(r: ast.Raise):
 
 def run(ctx, rep):
     m = ctx.m
+    r6(ctx, rep)
     r1(ctx, rep)
     r2(ctx, rep)
     r3(ctx, rep)
     r4(ctx, rep)
     r5(ctx, rep)
+
+
+def r6(ctx, rep):
+    """Both parsers folded end to end over a dense bounded input language (sa.parsefold)."""
+    from .. import parsefold
+    m = ctx.m
+    R6 = rep.rule('C13.R6', 'parsers folded end to end (MRO-bound PolishParser / StandardParser / ParseContext over the real parse tables) on every '
+                            'well-formed sentence up to a size bound, their single-character mutations and all short strings, with a mutable and a '
+                            'frozen predicate store: the outcome is a ParseError or a closed sentence (no free, vacuous or re-bound variable, one arity '
+                            'per predicate symbol) -- never another exception; the Polish parser agrees with an independent reader of the grammar')
+    for notation in ('polish', 'standard'):
+        res, cons, ninputs = parsefold.fold_parser(m, ctx.lgs.lex, notation, deep=rep.tier == 'thorough')
+        rep.consult(*cons)
+        seen = set()
+        for ok, kind, case, detail in res:
+            rep.instance(R6, ok=ok, nontrivial=case)
+            if not ok:
+                # one finding per (kind, failing construct): the first input that shows it
+                sig = (kind, detail.split(':')[0][:60])
+                if sig in seen:
+                    continue
+                seen.add(sig)
+                rep.finding(R6, f'C13.R6/{notation}/{kind}/' + case.split("'")[1] if "'" in case else f'C13.R6/{notation}/{kind}/{len(seen)}', 'pytableaux/lang/parsing.py', f'{notation} parser', f'{case}: {detail}')
+        rep.floor('C13.R6', f'{notation} inputs', ninputs, 1200)
 
 
 def parser_functions(m):
@@ -129,68 +170,33 @@ def r1(ctx, rep):
                             if ('ValueError' in types or 'Exception' in types) and any(isinstance(x, ast.Raise) and (raised_name(x) or '').split('.')[-1] in pe for x in ast.walk(h)):
                                 wrapped = True
                     tr = astq.enclosing(pm, tr, ast.Try)
-                ok = wrapped or (qn, name + '(') in VALID_BY_CONSTRUCTION
+                ok = wrapped or valid_by_construction(c)
                 rep.instance(R1, ok=ok, nontrivial=(qn, name))
                 if not ok:
                     rep.finding(R1, f'C13.R1/constructor/{qn}/{name}', m.loc(PAR, c), qn,
                                 f'`{astq.u(c)[:50]}` can raise ValueError and is neither converted to ParseError nor in the reviewed valid-by-construction table')
-        # _unexp_msg indexes input[pos]: must be dominated by a has-current check
-        for c in astq.calls(fn, nested=False):
-            if astq.call_name(c).endswith('._unexp_msg'):
-                n += 1
-                stmt = astq.stmt_of(pm, c)
-                g = astq.guards_of(fn, stmt, pm)
-                earlier = [x for x in astq.calls(fn, nested=False) if (x.lineno, x.col_offset) < (c.lineno, c.col_offset)
-                           and astq.call_name(x).endswith('.assert_current')]
-                samestmt = any(astq.call_name(x).endswith('.assert_current') for x in astq.calls(stmt))
-                ok = bool(earlier) or samestmt or any('len(self.input) > self.pos' in t and p for t, p in g)
-                rep.instance(R1, ok=ok, nontrivial=(qn, '_unexp_msg', c.lineno - fn.lineno))
-                if not ok:
-                    rep.finding(R1, f'C13.R1/_unexp_msg/{qn}', m.loc(PAR, c), qn, '_unexp_msg() indexes input[pos] but no has-current check dominates it: IndexError at end of input')
-    rep.floor('C13.R1', 'raise/constructor/_unexp_msg sites', n, 35)
-    # table lookups without a default: only in _read_predicate, on the character it was dispatched on
-    nodefault = [(qn, c) for qn, fn in parser_functions(m) for c in astq.calls(fn, nested=False)
-                 if astq.call_name(c).endswith('.type') and astq.u(c.func.value) in ('context', 'self') and len(c.args) == 1]
-    ok = [qn for qn, c in nodefault] == ['DefaultParser._read_predicate'] and astq.u(nodefault[0][1].args[0]) == 'pchar'
-    rep.instance(R1, ok=ok, nontrivial='type-without-default')
-    if not ok:
-        rep.finding(R1, 'C13.R1/type-without-default', m.relfile(PAR), 'ParseContext.type callers',
-                    f'context.type(x) without a default is used at {[qn for qn, c in nodefault]}: KeyError for a foreign character')
-    ex = m.func(PAR, 'ParseContext.__exit__')
-    ok = [astq.u(s) for s in astq.stmts(ex)] == ['self.close()']
-    rep.instance(R1, ok=ok, nontrivial='__exit__')
-    if not ok:
-        rep.finding(R1, 'C13.R1/ParseContext.__exit__', m.loc(PAR, ex), 'ParseContext.__exit__', 'does not just close() (end-of-input check on every exit)')
-    cl = m.func(PAR, 'ParseContext.close')
-    ok = [astq.u(s) for s in astq.stmts(cl)] == ['self.chomp()', 'self.assert_end()']
-    rep.instance(R1, ok=ok, nontrivial='close')
-    if not ok:
-        rep.finding(R1, 'C13.R1/ParseContext.close', m.loc(PAR, cl), 'ParseContext.close', 'does not eat whitespace and assert end of input')
-    # IndexError-safe accessors
-    for name in ('current', 'next'):
-        fn = m.func(PAR, f'ParseContext.{name}')
-        ok = 'except IndexError' in astq.u(fn)
-        rep.instance(R1, ok=ok, nontrivial=name)
-        if not ok:
-            rep.finding(R1, f'C13.R1/ParseContext.{name}', m.loc(PAR, fn), f'ParseContext.{name}', 'no longer returns None past the end of input')
-    ch = m.func(PAR, 'ParseContext.chomp')
-    ok = 'except IndexError' in astq.u(ch)
-    rep.instance(R1, ok=ok, nontrivial='chomp')
-    if not ok:
-        rep.finding(R1, 'C13.R1/ParseContext.chomp', m.loc(PAR, ch), 'ParseContext.chomp', 'IndexError at end of input is no longer absorbed')
-    rd = m.func(PAR, 'DefaultParser._read')
-    txt = astq.u(rd)
-    ok = 'self._methodmap[context.assert_current()]' in txt and 'except KeyError' in txt and 'raise ParseError(context._unexp_msg()) from None' in txt
-    rep.instance(R1, ok=ok, nontrivial='_read')
-    rep.consult(m.loc(PAR, rd) + ' DefaultParser._read')
-    if not ok:
-        rep.finding(R1, 'C13.R1/DefaultParser._read', m.loc(PAR, rd), 'DefaultParser._read', 'an unknown leading symbol is no longer turned into ParseError')
-    sc = m.func(PAR, 'StandardParser.__call__')
-    handlers = [h for h in ast.walk(sc) if isinstance(h, ast.ExceptHandler)]
-    ok = handlers and all(astq.u(h.type) == 'ParseError' for h in handlers)
-    rep.instance(R1, ok=bool(ok), nontrivial='StandardParser.__call__')
-    if not ok:
-        rep.finding(R1, 'C13.R1/StandardParser.__call__', m.loc(PAR, sc), 'StandardParser.__call__', 'the drop-parens retry catches something other than ParseError')
+    rep.floor('C13.R1', 'raise / constructor sites', n, 25)
+    # (end-of-input, unknown-symbol and retry behaviour are decided by the end-to-end fold C13.R6, not by statement shapes)
+
+
+def _is_store_guard(g):
+    return any(('not isinstance(self.predicates, Predicates)' in t and not p) or
+               ('isinstance(self.predicates, Predicates)' in t and 'not isinstance' not in t and p) for t, p in g)
+
+
+def store_guarded(m, qn, fn, node, seen):
+    """`node` (in parser function qn) is dominated by the isinstance(self.predicates, Predicates) guard -- in this function,
+    or, when qn is a private helper, at every one of its call sites (recursively)."""
+    pm = astq.parent_map(fn)
+    if _is_store_guard(astq.guards_of(fn, astq.stmt_of(pm, node), pm)):
+        return True
+    name = qn.rsplit('.', 1)[-1]
+    if not name.startswith('_') or name.startswith('__') or qn in seen:
+        return False
+    seen = seen | {qn}
+    sites = [(q, f, c) for q, f in parser_functions(m) for c in astq.calls(f, nested=False)
+             if isinstance(c.func, ast.Attribute) and c.func.attr == name and astq.u(c.func.value) in ('self', 'super()')]
+    return bool(sites) and all(store_guarded(m, q, f, c, seen) for q, f, c in sites)
 
 
 def r2(ctx, rep):
@@ -220,15 +226,12 @@ def r2(ctx, rep):
                 if not missing:
                     rep.instance(R2, ok=True, nontrivial=(qn, meth))
                     continue
-                pm = pm or astq.parent_map(fn)
-                g = astq.guards_of(fn, astq.stmt_of(pm, c), pm)
-                guarded = any(('not isinstance(self.predicates, Predicates)' in t and not p) or
-                              ('isinstance(self.predicates, Predicates)' in t and 'not isinstance' not in t and p) for t, p in g)
+                guarded = store_guarded(m, qn, fn, c, set())
                 rep.instance(R2, ok=guarded, sample=dict(site=qn, method=meth, missing_on=missing), nontrivial=(qn, meth))
                 if not guarded:
                     rep.finding(R2, f'C13.R2/{qn}/self.predicates.{meth}', m.loc(PAR, c), qn,
                                 f'`{astq.u(c)}`: {missing} (admitted by the constructor) has no method {meth}: AttributeError instead of ParseError')
-    rep.floor('C13.R2', 'store method calls', n, 3)
+    rep.floor('C13.R2', 'store method calls', n, 2)
 
 
 def r3(ctx, rep):
@@ -273,62 +276,7 @@ def r3(ctx, rep):
                     rep.finding(R3, f'C13.R3/unbind/{[b._name for b in bound]}/{v._name}/{[x._name for x in svars]}', m.loc(PAR, f_unbind), 'ParseContext.unbind',
                                 f'unbind({v._name}) with bound={[b._name for b in bound]}, variables occurring in the body={[x._name for x in svars]}: got {r!r} '
                                 f'(expected {"UnboundVariableError" if v not in bound else ("BoundVariableError: the variable does not occur in its scope" if not used else "the pair, with the variable unbound")})')
-    # Variable construction sites
-    sites = []
-    for qn, fn in parser_functions(m):
-        for c in astq.calls(fn, nested=False):
-            if astq.call_name(c) in ('Variable', 'ctype'):
-                sites.append((qn, c, fn))
-    allowed = {'DefaultParser._read_quantified', 'DefaultParser._read_parameter'}
-    for qn, c, fn in sites:
-        ok = qn in allowed
-        rep.instance(R3, ok=ok, nontrivial=('Variable-site', qn))
-        if not ok:
-            rep.finding(R3, f'C13.R3/variable-built/{qn}', m.loc(PAR, c), qn, 'a variable is constructed outside _read_quantified/_read_parameter (no binding check)')
-    rq = m.func(PAR, 'DefaultParser._read_quantified')
-    calls_ = {astq.call_name(c): c for c in astq.calls(rq)}
-    ub = calls_.get('context.unbind')
-    ok = ub is not None and len(ub.args) == 2 and astq.call_name(ub.args[0]) == 'context.bind' and astq.call_name(ub.args[1]) == 'self._read' \
-        and astq.call_name(ub.args[0].args[0]) == 'Variable'
-    rep.instance(R3, ok=ok, nontrivial='_read_quantified')
-    rep.consult(m.loc(PAR, rq) + ' DefaultParser._read_quantified')
-    if not ok:
-        rep.finding(R3, 'C13.R3/_read_quantified', m.loc(PAR, rq), 'DefaultParser._read_quantified', 'is no longer unbind(bind(Variable(...)), body): bind must precede the body and unbind (with the occurs check) must follow it')
-    rp = m.func(PAR, 'DefaultParser._read_parameter')
-    txt = astq.u(rp)
-    ok = 'if ctype is Variable' in txt and 'context.check_bound(param)' in txt and 'context.assert_current_in(Ctype.param)' in txt
-    rep.instance(R3, ok=ok, nontrivial='_read_parameter')
-    if not ok:
-        rep.finding(R3, 'C13.R3/_read_parameter', m.loc(PAR, rp), 'DefaultParser._read_parameter', 'a variable parameter is no longer checked to be bound')
-    # parameters are read only through _read_parameter
-    for qn, fn in parser_functions(m):
-        for c in astq.calls(fn, nested=False):
-            if astq.call_name(c) == 'Constant':
-                rep.instance(R3, ok=False, nontrivial=('Constant-site', qn))
-                rep.finding(R3, f'C13.R3/constant-built/{qn}', m.loc(PAR, c), qn, 'a constant is constructed outside _read_parameter')
-    # arity discipline
-    rd = m.func(PAR, 'DefaultParser._read_predicated')
-    txt = astq.u(rd)
-    ok = 'return pred(self._read_params(context, pred.arity))' in txt and 'arity = len(params)' in txt and 'pred = Predicate(*coords, arity)' in txt
-    rep.instance(R3, ok=ok, nontrivial='_read_predicated-arity')
-    if not ok:
-        rep.finding(R3, 'C13.R3/_read_predicated/arity', m.loc(PAR, rd), 'DefaultParser._read_predicated', 'a declared predicate no longer takes exactly pred.arity parameters (or an auto-declared one the number read)')
-    ri = m.func(PAR, 'StandardParser._read_infix_predicated')
-    txt = astq.u(ri)
-    ok = 'return pred(lhp, *self._read_params(context, arity - 1))' in txt and 'arity = pred.arity' in txt and 'if arity < 2' in txt
-    rep.instance(R3, ok=ok, nontrivial='_read_infix_predicated-arity')
-    if not ok:
-        rep.finding(R3, 'C13.R3/_read_infix_predicated/arity', m.loc(PAR, ri), 'StandardParser._read_infix_predicated', 'an infix predicate no longer takes exactly arity-1 further parameters')
-    rps = m.func(PAR, 'DefaultParser._read_params')
-    ok = 'for _ in range(num)' in astq.u(rps) and 'yield read(context)' in astq.u(rps)
-    rep.instance(R3, ok=ok, nontrivial='_read_params')
-    if not ok:
-        rep.finding(R3, 'C13.R3/_read_params', m.loc(PAR, rps), 'DefaultParser._read_params', 'no longer reads exactly `num` parameters')
-    po = m.func(PAR, 'PolishParser._read_operated')
-    ok = 'oper((self._read(context) for _ in range(oper.arity)))' in astq.u(po)
-    rep.instance(R3, ok=ok, nontrivial='Polish._read_operated')
-    if not ok:
-        rep.finding(R3, 'C13.R3/PolishParser._read_operated', m.loc(PAR, po), 'PolishParser._read_operated', 'no longer reads exactly oper.arity operands')
+    # (where variables are built, bind/unbind bracketing and arity discipline are decided on the parsers' behaviour by C13.R6)
 
 
 PROGRESS = ('context.advance', 'self.advance', 'read', 'self._read', 'self._read_parameter')
@@ -345,29 +293,20 @@ def r4(ctx, rep):
             n += 1
             progress = False
             for st in loop.body:         # unconditional top-level statements only
-                if isinstance(st, ast.AugAssign) and isinstance(st.op, ast.Add) and astq.u(st.target) in ('self.pos', 'length', 'context.pos'):
-                    progress = True
+                if isinstance(st, ast.AugAssign) and isinstance(st.op, (ast.Add, ast.Sub)):
+                    progress = True          # a position / length / depth counter moves on every iteration
                 if isinstance(st, (ast.Break, ast.Return, ast.Raise)):
                     progress = True
                 if isinstance(st, ast.Expr):
                     for c in astq.calls(st):
-                        if astq.call_name(c) in PROGRESS:
+                        nm_ = astq.call_name(c)
+                        if nm_ in PROGRESS or nm_.endswith('.advance') or 'read' in nm_.rsplit('.', 1)[-1]:
                             progress = True
             rep.instance(R4, ok=progress, sample=dict(function=qn, loop=astq.u(loop.test)), nontrivial=(qn, loop.lineno - fn.lineno))
             if not progress:
                 rep.finding(R4, f'C13.R4/{qn}/while {astq.u(loop.test)[:30]}', m.loc(PAR, loop), qn,
                             'loop body has no unconditional progress statement (pos/length increment, advance(), parameter read) or exit: possible non-termination')
     rep.floor('C13.R4', 'while loops', n, 4)
-    adv = m.func(PAR, 'ParseContext.advance')
-    ok = 'self.pos += n' in astq.u(adv)
-    rep.instance(R4, ok=ok, nontrivial='advance')
-    if not ok:
-        rep.finding(R4, 'C13.R4/ParseContext.advance', m.loc(PAR, adv), 'ParseContext.advance', 'no longer moves the position forward')
-    rc = m.func(PAR, 'DefaultParser._read_coords')
-    ok = 'context.advance()' in astq.u(rc)
-    rep.instance(R4, ok=ok, nontrivial='_read_coords')
-    if not ok:
-        rep.finding(R4, 'C13.R4/_read_coords', m.loc(PAR, rc), 'DefaultParser._read_coords', 'reading a symbol no longer consumes it')
 
 
 def r5(ctx, rep):
